@@ -48,6 +48,7 @@ type DPCall struct {
 	Len     int64
 	Sum     uint64
 	Applied bool
+	Lied    bool   // the call ran against a failing disk (DISKERR) and the replica reported success
 	Err     string // the replica's own error (no fault injected on this call)
 	Outcome Outcome
 	When    time.Time
@@ -658,6 +659,53 @@ func (d *faultDP) begin(c DPCall) int {
 	return i
 }
 
+// withBrokenHead runs f while the head file's descriptor is replaced by a
+// read-only one on /dev/null: pwrite fails with EBADF, fsync with EINVAL.
+// Returns false if the swap could not be set up (f was not run).
+func (d *faultDP) withBrokenHead(f func()) bool {
+	r := func() (r *replica.Replica) {
+		defer func() { recover() }()
+		return d.n.S.Replica()
+	}()
+	if r == nil {
+		return false
+	}
+	fd := int(r.VerifHeadFd())
+	if fd <= 0 {
+		return false
+	}
+	saved, e1 := syscall.Dup(fd)
+	if e1 != nil {
+		return false
+	}
+	defer syscall.Close(saved)
+	ro, e2 := syscall.Open("/dev/null", syscall.O_RDONLY, 0)
+	if e2 != nil {
+		return false
+	}
+	defer syscall.Close(ro)
+	if syscall.Dup3(ro, fd, 0) != nil {
+		return false
+	}
+	defer syscall.Dup3(saved, fd, 0)
+	f()
+	return true
+}
+
+// doneNotApplied: the call ran against a broken disk; if the replica nevertheless
+// reported success the log says so.
+func (d *faultDP) doneNotApplied(i int, err error) {
+	d.n.mu.Lock()
+	d.n.Log[i].Applied = false
+	if err != nil {
+		d.n.Log[i].Err = err.Error()
+	} else {
+		d.n.Log[i].Err = "the replica reported success although its disk " + d.n.Log[i].Kind + " failed"
+		d.n.Log[i].Lied = true
+	}
+	d.n.mu.Unlock()
+}
+
 func (d *faultDP) done(i int, err error) {
 	d.n.mu.Lock()
 	d.n.Log[i].Applied = err == nil
@@ -702,28 +750,11 @@ func (d *faultDP) WriteAt(p []byte, off int64) (c int, err error) {
 	o := d.n.take("write")
 	i := d.begin(DPCall{Kind: "write", Off: off, Len: int64(len(p)), Sum: sum64(p), Outcome: o})
 	if o == DISKERR {
-		if r := d.n.S.Replica(); r != nil {
-			if fd := int(r.VerifHeadFd()); fd > 0 {
-				saved, e1 := syscall.Dup(fd)
-				ro, e2 := syscall.Open("/dev/null", syscall.O_RDONLY, 0)
-				if e1 == nil && e2 == nil && syscall.Dup3(ro, fd, 0) == nil {
-					c, err = d.n.S.WriteAt(p, off)
-					syscall.Dup3(saved, fd, 0)
-					syscall.Close(saved)
-					syscall.Close(ro)
-					if err == nil {
-						err = fmt.Errorf("HARNESS: write succeeded on a read-only descriptor")
-					}
-					d.done(i, err)
-					return c, err
-				}
-				if e1 == nil {
-					syscall.Close(saved)
-				}
-				if e2 == nil {
-					syscall.Close(ro)
-				}
-			}
+		// the replica's own disk write fails; whatever the replica answers is passed
+		// on, but the call is logged as not applied (it cannot have been)
+		if d.withBrokenHead(func() { c, err = d.n.S.WriteAt(p, off) }) {
+			d.doneNotApplied(i, err)
+			return c, err
 		}
 		o = ERR
 	}
@@ -751,6 +782,14 @@ func (d *faultDP) Sync() (c int, err error) {
 	defer d.died("sync", &err)
 	o := d.n.take("sync")
 	i := d.begin(DPCall{Kind: "sync", Outcome: o})
+	if o == DISKERR {
+		// fsync of the head fails
+		if d.withBrokenHead(func() { c, err = d.n.S.Sync() }) {
+			d.doneNotApplied(i, err)
+			return c, err
+		}
+		o = ERR
+	}
 	if err := d.fault("sync", o); err != nil {
 		return -1, err
 	}
